@@ -114,7 +114,9 @@ class Term:
     __rmul__ = __mul__
 
     def __pow__(self, n):
-        if not isinstance(n, int) or n < 0:
+        if isinstance(n, int) and n < 0:
+            return self.inverse() ** (-n)
+        if not isinstance(n, int):
             raise NotATerm("power %r" % (n,))
         r = Term.const(1)
         for _ in range(n):
